@@ -656,6 +656,7 @@ Section K3D.
   Definition iso3 : bool := (rX =? rY) && (rX =? rZ).
   Lemma iso3_eq : iso3 = isotropic rad.
   Proof.
+    clear Hr2 Hz2 Hy2 Hx2 Hmaxit.
     unfold iso3, isotropic. cbn [forallb hd]. rewrite Z.eqb_refl, andb_true_r. cbn [andb].
     destruct (Z.eqb_spec rX rY), (Z.eqb_spec rX rZ), (Z.eqb_spec rY rZ); subst; cbn; try reflexivity; try lia.
   Qed.
